@@ -959,3 +959,7 @@ A(M("c16e-consumer-copy-silent", ["C16", "C12", "C14"], "tertiary.py", "        
 from mutants_r5_w2 import E as _R5_W2  # noqa: E402
 
 MUTANTS.extend(_R5_W2)
+
+from mutants_r6_w2 import E as _R6_W2  # noqa: E402
+
+MUTANTS.extend(_R6_W2)
